@@ -92,6 +92,22 @@ CONTRACTS[ST + 'CliffordMap.compose'] = dict(
              'fresh_loc(result.gs)', 'fresh_loc(result.ps)'],
     modifies=[], returns=CMAP,
 )
+# inverse: "composes with its inverse results in identity map" -- stated as  inverse().compose(self) == identity_map, in the
+# vocabulary of compose's own postcondition (OrdG / XZSum / OrdP), so that the two contracts chain without any further lemma:
+#   string part:  row j of the inverse, transformed by self, is the unit string e_j
+#   phase part:   its phase after that transformation is 0
+CONTRACTS[ST + 'CliffordMap.inverse'] = dict(
+    params=[('self', CMAP)],
+    requires=['rows(self.gs) == cols(self.gs)', 'rows(self.gs) >= 1', 'len(self.ps) == rows(self.gs)', 'bits2(self.gs)'],
+    ensures=['rows(result.gs) == rows(self.gs)', 'cols(result.gs) == rows(self.gs)', 'len(result.ps) == rows(self.gs)', 'bits2(result.gs)',
+             'forall(j, 0, rows(self.gs), forall(c, 0, rows(self.gs), OrdG(result.gs[j], self.gs, rows(self.gs), c) == (1 if j == c else 0)))',
+             'forall(j, 0, rows(self.gs), (result.ps[j] + XZSum(result.gs[j], cols(self.gs) // 2) % 4 '
+             '+ OrdP(result.gs[j], self.gs, self.ps, rows(self.gs), cols(self.gs) // 2)) % 4 == 0)',
+             'forall(j, 0, rows(self.gs), 0 <= result.ps[j] <= 3)',
+             'fresh_loc(result.gs)', 'fresh_loc(result.ps)'],
+    may_raise=['ValueError'],
+    modifies=[], returns=CMAP,
+)
 _to_state_post = [
     'rows(result.gs) == rows(self.gs)', 'cols(result.gs) == cols(self.gs)', 'len(result.ps) == len(self.ps)',
     'forall(i, 0, rows(self.gs) // 2, forall(c, 0, cols(self.gs), result.gs[i][c] == self.gs[2 * i + 1][c] and result.gs[rows(self.gs) // 2 + i][c] == self.gs[2 * i][c]))',
